@@ -373,7 +373,9 @@ class MaildirWorld(World):
             self.base = tempfile.mkdtemp(prefix='pymap-md-')
             self.own_base = True
         args = FakeArgs(base_dir=self.base, layout=self.layout, colon=None, concurrency=2)
-        self.backend, self.config = await MaildirBackend.init(args)
+        overrides.setdefault('hash_context', BuiltinHash(hash_name='sha1', salt_len=0, rounds=1))
+        overrides.setdefault('invalid_user_sleep', 0.0)
+        self.backend, self.config = await MaildirBackend.init(args, **overrides)
         for user, pw in users:
             hashed = await Passwords(self.config).hash_password(pw)
             ident = Identity(self.config, self.backend.login.tokens, user, None, {'admin'})
